@@ -166,7 +166,10 @@ class Session:
         r = call_sut(ReportReader.from_json, text)
         if r[0] == "exc":
             return (f"cache-left-unreadable:{r[1]}", f"{what}: {r[2][-800:]}")
-        got = normalise(doc)
+        try:
+            got = normalise(doc)
+        except (AttributeError, KeyError, TypeError) as e:
+            return ("cache-left-wrong-shape", f"{what}: the cache left behind is JSON of the wrong shape ({type(e).__name__}: {e})")
         if got != self.F:
             return ("tainted-report", f"{what}: {first_diff(got, self.F)}")
         return None
